@@ -1,7 +1,7 @@
 SPECIFICATION Spec
 CONSTANTS
   MaxLen = 4
-  Kinds = {"P", "RD", "AL", "UA", "ON", "OF", "NP", "VB", "GO", "GC", "HD", "HE", "LC", "SE", "CM"}
+  Kinds = {"P", "RD", "AL", "UA", "ON", "OF", "NP", "VB", "GO", "GC", "HD", "HE", "LC", "SE", "CM", "U8", "BX"}
   PadKinds = {"P"}
   Feeds = {"fd", "str"}
   MaxLenC = 0
@@ -9,5 +9,6 @@ CONSTANTS
   ChunkSizes = {0}
 INVARIANT TypeOK
 INVARIANT OffAtExec
+INVARIANT StdinBlocking
 INVARIANT PrefixBeforeError
 INVARIANT Catalogue
